@@ -36,6 +36,9 @@ func checkC12(c *Ctx) {
 		c.c12CounterPreserved(b)
 	}
 	c.c12Counter()
+	// every serve is counted: the exported lookups other than Read (Load) serve through Read and thereby through PrepareRead — a
+	// lookup of their own would serve entries without touching the usage counter (C07 R07.6)
+	c.borrowKinds("C07", func() { c.c07LoadStore() }, "R12.3", "Load:serves-through-Read", []string{"R07.6"}, "load-read")
 	// the entries removed are the selected ones: deletion uses the backend's own index function on the collected hash/key (R07.1)
 	c.borrow("C07", func() {
 		for _, b := range backends {
